@@ -18,7 +18,8 @@ FLAG_NAMES = ["logical_not_operator", "logical_parentheses", "ternary_expression
 
 DATA_POOL = {
     "x": [3, 0, -2, 7, 1, 1.0, True],
-    "y": [2.5, 0.5, 10, -1.5],
+    "y": [2.5, 0.5, 10, -1.5, 0.125, 2.675],
+    "tie": [0.125, 1.005, 2.5, "0.125", 0.5, 1.5, -0.125],     # exact ties at the usual formatting precisions
     "n": [1, 2, 5],
     "s": ["hello world", "Hello", "a,b,c", "", "  padded  ", "x<y & \"z\"", "ünï cødé", "1", "3.5", "now", "today"],
     "t": ["<b>bold & \"q\"</b>", "<script>alert(1)</script>", "plain", "line1\nline2"],
@@ -114,7 +115,7 @@ EXTRA_FILTERS = {
 }
 ARRAY_IN = ["items", "words", "objs", "nested", "objs[0].tags", "(1..3)", "s"]
 STRING_IN = ["s", "t", "e", "user.name", "'a b c'", "'x<y'"]
-NUMBER_IN = ["x", "y", "n", "i", "3", "2.5", "'4'", "items.size"]
+NUMBER_IN = ["x", "y", "n", "i", "3", "2.5", "'4'", "items.size", "tie", "0.125"]
 FILTER_INPUT_HINT = {  # which kind of left operand makes the filter do something interesting
     "compact": ARRAY_IN, "concat": ARRAY_IN, "first": ARRAY_IN, "join": ARRAY_IN, "last": ARRAY_IN, "map": ["objs"],
     "reverse": ARRAY_IN, "sort": ARRAY_IN, "sort_natural": ARRAY_IN, "sum": ARRAY_IN, "uniq": ARRAY_IN,
@@ -778,6 +779,7 @@ def gen_recipe(rng, extra_p=0.5):
             "output_stream_limit": rng.weighted([(None, 8), (40, 1), (400, 1)]),
             "local_namespace_limit": rng.weighted([(None, 9), (300, 1)]),
             "context_depth_limit": rng.weighted([(30, 19), (3, 1)]),
+            "block_nesting_limit": rng.weighted([(30, 8), (2, 1), (3, 2), (5, 1)]),
         },
         "globals": rng.weighted([({}, 5), ({"g": "EG", "site": "S"}, 3)]),
     }
